@@ -21,7 +21,7 @@ def upper_executor(w):
 
 def upper_ask(ses, name, assertions, expect='unsat', values=None, extra=()):
     base = list(assertions)
-    lem = um.core_lemmas(base) + um.json_lemmas(base)
+    lem = um.core_lemmas(base) + um.json_lemmas(base) + um.text_lemmas(base)
     lem += um.json_lemmas(base + lem)
     v, rec = ses.ask(name, base, expect, values=values, extra_lemmas=lem + list(extra))
     return v, rec
